@@ -245,11 +245,16 @@ class FileSpace(statespace.Space):
       root = tempfile.mkdtemp(prefix='c05_')
     w = dict(root=root, m={}, recs={})
     pg.io.mkdirs(os.path.join(root, 'e'), exist_ok=True)
+    if self.fs == 'std':
+      os.chdir(root)          # the bare file names below are relative to the scratch directory
     return w
 
   def paths(self, w):
     r = w['root']
-    return {'m': f'{r}/m.json', 'em': f'{r}/e/m.json', 'a': f'{r}/a.json'}
+    out = {'m': f'{r}/m.json', 'em': f'{r}/e/m.json', 'a': f'{r}/a.json'}
+    if self.fs == 'std':
+      out['bare'] = 'bare.json'        # a path without a directory part (what the documentation examples use)
+    return out
 
   def canon(self, w):
     return (tuple(sorted((k, repr(pg.to_json(v))) for k, v in w['m'].items())),
@@ -257,11 +262,11 @@ class FileSpace(statespace.Space):
 
   def ops(self, w):
     ops = []
-    for p in ('m', 'em', 'a'):
-      for v in FILE_VALUES:
+    for p in ('m', 'em', 'a') + (('bare',) if self.fs == 'std' else ()):
+      for v in (FILE_VALUES if p != 'bare' else ('mid', 'short')):
         ops.append(('save', p, v))
       ops.append(('load', p))
-    for p in ('r1', 'er1'):
+    for p in ('r1', 'er1') + (('bare-recs',) if self.fs == 'std' else ()):
       for v in ('long', 'short', 'uni'):
         ops.append(('append', p, v))
         ops.append(('rewrite', p, v))
@@ -270,6 +275,8 @@ class FileSpace(statespace.Space):
     return ops
 
   def _recpath(self, w, p):
+    if p == 'bare-recs':
+      return 'bare.jsonl'
     return f"{w['root']}/{'e/' if p.startswith('e') else ''}recs.jsonl"
 
   def apply(self, w, op, rec, trace):
@@ -323,6 +330,7 @@ class FileSpace(statespace.Space):
 
   def dispose(self, w):
     if self.fs == 'std':
+      os.chdir('/')
       shutil.rmtree(w['root'], ignore_errors=True)
     else:
       try:
